@@ -119,6 +119,11 @@ func removeSourcePrecedence(rbacIxns []*rbacIntention, intentionDefaultAction in
 			// [j] is the thing to maybe NOT [i] from
 			if ixnSourceMatches(rbacIxns[i].Source, rbacIxns[j].Source) {
 				rbacIxns[j].NotSources = append(rbacIxns[j].NotSources, rbacIxns[i].Source)
+			} else if ixnSourceMatches(rbacIxns[j].Source, rbacIxns[i].Source) {
+				// The higher precedence [i] has the wider source (possible when
+				// [j] names the wildcard destination): every caller [j] could
+				// match is decided by [i], so [j] never applies.
+				rbacIxns[j].Skip = true
 			}
 		}
 		if rbacIxns[i].Action == intentionDefaultAction {
